@@ -116,7 +116,7 @@ def run(ctx: Ctx) -> int:
         if res["real"]["crashed"]:
             ctx.violation({"invariant": "NoCrash", "origin": origin, "exc": res["real"]["crashed"],
                            "key": f"crash:{res['real']['crashed'][:60]}"})
-        for d in P.derived_relations(res["real"]["system"]):
+        for d in P.derived_relations(res["real"]["system"], res["real"]["msgs"]):
             ctx.violation({"invariant": d.split(":")[0], "detail": d, "origin": origin,
                            "key": f"derived:{d.split(':')[0]}:{origin.get('family')}"})
         if len(traces) < (80 if ctx.quick else 400):
@@ -132,7 +132,7 @@ def run(ctx: Ctx) -> int:
         b = P.build_sources(paths=[p])
         origin = {"family": "testpackage", "shape": p.name}
         judge_events(ctx, b["rec"].events, origin)
-        for d in P.derived_relations(b["system"]):
+        for d in P.derived_relations(b["system"], b["msgs"]):
             ctx.violation({"invariant": d.split(":")[0], "detail": d, "origin": origin, "key": f"derived:{d}"})
         if len(b["rec"].events) <= 120:
             traces.append(trace_of(b["rec"]))
@@ -143,7 +143,7 @@ def run(ctx: Ctx) -> int:
         b = P.build_sources(texts=[("m", src)])
         origin = {"family": "pygen", "shape": f"seed{ctx.seed}#{i}", "source": src}
         judge_events(ctx, b["rec"].events, origin)
-        for d in P.derived_relations(b["system"]):
+        for d in P.derived_relations(b["system"], b["msgs"]):
             ctx.violation({"invariant": d.split(":")[0], "detail": d, "origin": origin, "key": f"derived:{d.split(':')[0]}:pygen"})
         if len(b["rec"].events) <= 60:
             traces.append(trace_of(b["rec"]))
@@ -184,12 +184,12 @@ def replay(ctx: Ctx, path: str) -> int:
         real = P.real_build({**o["project"], "family": "", "meta": {}}, o["sched"], ctx.scratch, record_states=True)
         for e in real["rec"].events:
             bad += P.registry_invariants(e["s"]) if not e["exc"] else ["NoCrash"]
-        bad += P.derived_relations(real["system"])
+        bad += P.derived_relations(real["system"], real["msgs"])
     elif "source" in o:
         b = P.build_sources(texts=[("m", o["source"])])
         for e in b["rec"].events:
             bad += P.registry_invariants(e["s"]) if not e["exc"] else ["NoCrash"]
-        bad += P.derived_relations(b["system"])
+        bad += P.derived_relations(b["system"], b["msgs"])
     print("replay:", "still violated: " + ",".join(sorted(set(bad))) if bad else "holds now")
     if bad:
         print(f"VIOLATION property=C02 replay={path}")
